@@ -111,6 +111,15 @@ MUTANTS = [
     ("c19_universe_includes_undeclared_strats_tickers", ["C19"], "bt/core.py", "        if self._original_children_are_present:\n            # if we have universe_tickers defined", "        if self._original_children_are_present and not self._has_strat_children:\n            # if we have universe_tickers defined"),
     ("c19_duplicate_eager_overwrites", ["C19"], "bt/core.py", "                    if c.name in self.children:\n                        raise ValueError(\"Child %s already exists\" % c)\n", "                    if False:\n                        raise ValueError(\"Child %s already exists\" % c)\n"),
     ("c19_full_name_skips_level", ["C19"], "bt/core.py", "            return \"%s>%s\" % (self.parent.full_name, self.name)", "            return \"%s>%s\" % (self.parent.full_name if self.parent.parent is self.parent else self.parent.parent.full_name, self.name)"),
+    # ---- C18
+    ("c18_turnover_max", ["C18"], "bt/backtest.py", "        min_outlay = pd.DataFrame({\"pos\": outlaysp, \"neg\": outlaysn}).min(axis=1)", "        min_outlay = pd.DataFrame({\"pos\": outlaysp, \"neg\": outlaysn}).max(axis=1)"),
+    ("c18_sweights_overwrite_same_name", ["C18"], "bt/backtest.py", "                    if m.name in vals:\n                        vals[m.name] += m_values\n                    else:", "                    if False:\n                        vals[m.name] += m_values\n                    else:"),
+    ("c18_positions_overwrite_same_name", ["C18"], "bt/core.py", "                if x.name in vals.columns:\n                    vals[x.name] += x.positions\n                else:", "                if False:\n                    vals[x.name] += x.positions\n                else:"),
+    ("c18_hhi_abs", ["C18"], "bt/backtest.py", "        return (w**2).sum(axis=1)", "        return w.abs().sum(axis=1)"),
+    ("c18_weights_by_name", ["C18"], "bt/backtest.py", "                vals = pd.DataFrame({x.full_name: x.values for x in self.strategy.members})", "                vals = pd.DataFrame({x.name: x.values for x in self.strategy.members}).rename(columns={x.name: x.full_name for x in self.strategy.members})"),
+    ("c18_tx_spread_sign", ["C18"], "bt/core.py", "            prc += bidoffer.unstack() / trades", "            prc += bidoffer.unstack() / trades.abs()"),
+    ("c18_replay_window_inclusive_start", ["C18"], "bt/algos.py", "        transactions = all_transactions[(timestamps > start) & (timestamps <= end)]\n        for (_, security), transaction in transactions.iterrows():\n            c = target[security]\n            c.transact(transaction[\"quantity\"], price=transaction[\"price\"], update=False)\n\n        # Now update\n        target.root.update(target.now)\n\n        return True\n\n\nclass SimulateRFQTransactions", "        transactions = all_transactions[(timestamps >= start) & (timestamps <= end)]\n        for (_, security), transaction in transactions.iterrows():\n            c = target[security]\n            c.transact(transaction[\"quantity\"], price=transaction[\"price\"], update=False)\n\n        # Now update\n        target.root.update(target.now)\n\n        return True\n\n\nclass SimulateRFQTransactions"),
+    ("c18_result_prices_rebased", ["C18"], "bt/backtest.py", "        tmp = [pd.DataFrame({x.name: x.strategy.prices}) for x in backtests]\n        super(Result, self).__init__(*tmp)", "        tmp = [pd.DataFrame({x.name: x.strategy.prices.iloc[1:]}) for x in backtests]\n        super(Result, self).__init__(*tmp)"),
     # ---- C08
     ("c08_fee_reset_every_update", ["C08", "C07"], "bt/core.py", "        # update now\n        self.now = date\n        if inow is None:\n            if self.now == 0:\n                inow = 0\n            else:\n                inow = self.data.index.get_loc(date)\n\n        # update children if any and calculate value", "        # update now\n        self.now = date\n        self._last_fee = 0.0\n        if inow is None:\n            if self.now == 0:\n                inow = 0\n            else:\n                inow = self.data.index.get_loc(date)\n\n        # update children if any and calculate value"),
     ("c08_outlay_row_accumulates", ["C08", "C07"], "bt/core.py", "            self._outlays.array[inow] += self._outlay\n            # reset outlay back to 0\n            self._outlay = 0\n", "            self._outlays.array[inow] += self._outlay\n"),
